@@ -55,6 +55,12 @@ def harness_build(features_default=True, profile="release"):
     return rc, out, binp
 
 
+def _limit_memory():
+    import resource
+    cap = int(os.environ.get("NF_HARNESS_MEM", str(8 << 30)))
+    resource.setrlimit(resource.RLIMIT_AS, (cap, cap))
+
+
 def run_harness(binp, ops_path, out_path, op_timeout=60.0):
     """run nfh over the whole ops file; on a crash / hang attribute it to the op in flight, mark the
     rest of that scenario as skipped and restart at the next scenario.  Returns {line: answer}."""
@@ -66,7 +72,10 @@ def run_harness(binp, ops_path, out_path, op_timeout=60.0):
     while start < len(ops):
         if os.path.exists(out_path):
             os.remove(out_path)
-        p = subprocess.Popen([binp, ops_path, out_path, str(start)], stdout=subprocess.DEVNULL, stderr=subprocess.PIPE, env=ENV)
+        # address-space cap for the process that runs the REAL crate: a change that makes parse_bytes allocate without bound must
+        # abort that process (reported as an `abort` outcome of the operation in flight), not exhaust the machine
+        p = subprocess.Popen([binp, ops_path, out_path, str(start)], stdout=subprocess.DEVNULL, stderr=subprocess.PIPE, env=ENV,
+                             preexec_fn=_limit_memory)
         last_size, last_change = -1, time.time()
         timed_out = False
         while True:
